@@ -257,8 +257,8 @@ def propagate_facets(pages: Dict[FileId, Page], context: Context) -> None:
             facet_path = Path(os.path.join(base, "facets.toml"))
             curr_facets, diagnostics = config.load_facets_from_file(facet_path)
 
-            if not curr_facets:
-                context.diagnostics[config.get_fileid(facet_path)].extend(diagnostics)
+            # Problems with some entries are reported also when other entries are fine
+            context.diagnostics[config.get_fileid(facet_path)].extend(diagnostics)
 
             if parent_facets and curr_facets:
                 parent_facets = config.merge_facets(parent_facets, curr_facets)
